@@ -7,12 +7,12 @@ class P(vlib.Prop):
             "symlink chains of 39/40/41 links, 39/40/41 sequential absolute links, lexical '..' targets, the witnesses of the syntactic class "
             "(links through links, link budget per lookup, tarfs MkdirAll('.')), scenarios of what dirFS decides itself (overlay/host drift, "
             "Create('.'), climbing and rooted Link names, link(2) on a symlink, Stat mixing, un-normalised non-climbing names, ROOTED names, Mknod/Readnod "
-            "with the Mknod-on-an-existing-name replay), hard links, handles that outlive their name, read/write/seek patterns around EOF, one scenario that "
+            "with the Mknod-on-a-taken-name regression replay of C17-F20), hard links, handles that outlive their name, read/write/seek patterns around EOF, one scenario that "
             "shows every operation kind with every result class its model can produce), then random sequences of 5..40 operations over 6 names and 3 directory "
             "levels (relative / absolute / looping / '..' link targets; a quarter with un-normalised paths; a quarter 'tame' = safe on a host directory, rooted "
             "names and Mknod/Readnod included) run through the public FullFS interface of apkfs.NewMemFS(), tarfs.New() and, for the tame ones, apkfs.DirFS(tmpdir); "
             "subfs cases: sequences on an in-memory filesystem in which most operations go through &apkfs.SubFS{FS, Root} (seven scenarios: joined names, '..' escapes, "
-            "unjoined Symlink/Link, a rooted root, links inside, a missing root, a root that is a file; then random ones with names that try to leave the root). "
+            "Symlink/Link through the view (regression replay of C17-F22), a rooted root, links inside, a missing root, a root that is a file; then random ones with names that try to leave the root). "
             "stage tarentry: WriteHeader calls (regular files of one package origin, the opener's files being the harness's) mixed with FullFS operations on the real tarfs "
             "(14 scenarios: reads before any write, truncation, overwrite, buffering on write intent, the read-only-handle corner, hard link, remove, existing names, append, "
             "empty entry, through links, metadata; then random ones). "
@@ -48,7 +48,7 @@ class P(vlib.Prop):
                   "The model of the directory-backed filesystem (overlay memFS + host) takes the reference's step on synchronised states for normalised names, "
                   "ROOTED ones included, Mknod/Readnod included, inside the overlay's envelope or — for tame, weight-respecting sequences — inside its syntactic "
                   "substitute; it drifts apart outside (witness). The sub-filesystem view is the parent at root/name for names without '..' and lexically confined to "
-                  "its root there; '..' escapes and Symlink/Link are not joined (both refuted, replayed, recorded). The tar-entry channel of tarfs extends the tree "
+                  "its root there, Symlink and Link included (repaired by 44061d3); '..' escapes (refuted, replayed, recorded). dirFS.Mknod of a taken name answers ErrExist and changes nothing (repaired by bfd5027). The tar-entry channel of tarfs extends the tree "
                   "model conservatively; a package's file under a fresh root name reads and stats as the entry's bytes; a read-only handle of a not-yet-loaded file is the "
                   "opener's file (refuted: stale after a write, no Seek). The models are tied to the code by per-step differential comparison of every return value and "
                   "error class on all five kinds of filesystem, and the reference step is evaluated next to every observed step.")
